@@ -238,6 +238,7 @@ SCENARIOS = {
   'sync+call': (['Ss', 'c'], 'K'),
   'sync2':     (['Ss', 'Ss'], 'K'),
   'nested':    (['Nn'], 'K'),
+  'nested-exc': (['X'], 'K'),          # X: an inner nested section is left by an exception which the outer section handles and then goes on working
   'call+coopcall': (['c'], 'C'),       # C: a cooperative task submits a callable too
   'call3':     (['c', 'c', 'c'], ''),
 }
@@ -330,10 +331,15 @@ def h_preempt(ctx, scenario, hub, bound, nondefault=False):
       for ch in prog:
         if ch == 'c': submit(name)
         elif ch == 'w': wake()
-        elif ch in 'SN':
+        elif ch in 'SNX':
           depth = 2 if ch == 'N' else 1
           def section(d):
             with s.synchronized():
+              if ch == 'X':
+                try:
+                  with s.synchronized(): raise ValueError("inner section fails")
+                except ValueError:
+                  pass                        # handled: the outer section is still active
               if d > 1: return section(d - 1)
               insec[0] += 1
               # while a foreign thread is inside, the scheduler thread is parked in the SyncTask (blocked on its out-lock, or between letting
